@@ -170,6 +170,13 @@ func SmallCfg(r *rand.Rand, typ string, o Opts) Cfg {
 	if o.BufLEWindow && W < B {
 		W = B + r.Intn(3)
 	}
+	if r.Intn(40) == 0 {
+		// legal huge windows (32-bit boundaries)
+		W = []int{1<<31 - 1, 1 << 31, 1<<32 - 8, 3 << 30, 1 << 24, 1<<31 + 1}[r.Intn(6)]
+		if typ == "GSAP" && W > 1<<31-1 {
+			W = 1<<31 - 1
+		}
+	}
 	c.WindowSize = W
 	K := pick(r, 1, 2, 3, 5, 8, 16, 32, 33, 40, 200, B, B+1, maxInt(1, B/2), maxInt(1, W), W+1)
 	if r.Intn(4) == 0 {
